@@ -7,7 +7,7 @@ import time
 from gen import Unit, GenError
 
 VERIF = os.path.dirname(os.path.dirname(os.path.abspath(__file__)))
-BUILD = os.path.join(VERIF, 'build')
+BUILD = os.environ.get('VERIF_BUILD') or os.path.join(VERIF, 'build')
 
 SMT_FAIL = (
     ('postcondition not satisfied', 'postcondition'),
